@@ -2,7 +2,7 @@
 From stdpp Require Import gmap list.
 From Coq Require Import ZArith Lia.
 From Verif Require Import S1.Model C07.Spec C07.Proofs C03.Model C03.Spec
-     C03.ProofsS C03.ProofsF C03.Proofs C03.ProofsR C03.ProofsU C03.ProofsP C03.ProofsC.
+     C03.ProofsS C03.ProofsF C03.Proofs C03.ProofsR C03.ProofsU C03.ProofsP C03.ProofsC C03.ProofsV.
 Open Scope Z_scope.
 
 (* ===================== structural layer ===================== *)
@@ -324,3 +324,101 @@ Example C03_nonvacuous :
      good_idx nv_env (fun t => 100 + t) nv_true (u32 (1 + 1)) 1 (Z.of_nat i)).
 Proof. exact nonvacuous_run. Qed.
 Print Assumptions C03_nonvacuous.
+
+(* ===================== VerifyBasicBlockFilter ===================== *)
+
+(* The verdict of VerifyBasicBlockFilter, for EVERY block and EVERY filter
+   (as its Match predicate): it reports a missing script exactly when the
+   filter omits the script of some output of the block - of any transaction,
+   the coinbase included (F30 repaired) - that BIP-158 indexes: non-empty and
+   not STARTING with OP_RETURN.  Nothing else about the script is looked at:
+   not whether it parses, not its size.  Otherwise the number returned is the
+   number of OP_RETURN outputs the filter matches.  (The scripts of spent
+   outputs derived from witnesses never make a filter fail.) *)
+Theorem C03_verify_filter_exact : forall b f,
+  (verify_filter b f = None <-> omits_required b f) /\
+  (forall n, verify_filter b f = Some n -> ~ omits_required b f /\ n = opret_matches b f) /\
+  (~ omits_required b f -> verify_filter b f = Some (opret_matches b f)).
+Proof. exact (fun b f => verify_filter_exact f b). Qed.
+Print Assumptions C03_verify_filter_exact.
+
+(* ... spelled out for the scripts txscript.IsUnspendable would dismiss: a
+   filter that does not match an output script which is non-empty and does
+   not start with OP_RETURN is refuted, whatever [sc_parses] and however
+   large [sc_len] are. *)
+Theorem C03_verify_filter_unparseable_oversized : forall b f s,
+  In s (block_outs b) -> sc_len s <> 0 -> sc_first s <> OP_RETURN -> f (sc_tok s) = false ->
+  verify_filter b f = None.
+Proof. exact (fun b f s => verify_filter_unparseable_oversized f b s). Qed.
+Print Assumptions C03_verify_filter_unparseable_oversized.
+
+(* The statement has teeth: a verifier classifying outputs with
+   txscript.IsUnspendable accepts a filter that omits an unparseable and an
+   oversized script, and counts the honest filter's matches on them as
+   OP_RETURN matches; the model refutes the one and clears the other. *)
+Example C03_verify_filter_nonvacuous :
+  let liar := fun s => s =? 1 in
+  let honest := fun s => (s =? 1) || (s =? 2) || (s =? 3) in
+  omits_required vx_block liar /\ verify_filter_unspendable vx_block liar = Some 0 /\
+  ~ omits_required vx_block honest /\ verify_filter_unspendable vx_block honest = Some 2 /\
+  verify_filter vx_block liar = None /\ verify_filter vx_block honest = Some 0.
+Proof. exact unspendable_variant_refuted. Qed.
+Print Assumptions C03_verify_filter_nonvacuous.
+
+(* resolveFilterMismatchFromBlock with VerifyBasicBlockFilter as modelled: as
+   soon as one of the filters served is refutable from the block, the peers
+   named are EXACTLY those whose filter is refutable - whatever the OP_RETURN
+   counts and majorities (any number of colluding liars). *)
+Theorem C03_refutable_filters_named : forall fo blk mt filters th,
+  verify_is fo blk mt ->
+  (exists q g, In (q, g) filters /\ omits_required blk (mt g)) ->
+  exists bad, resolve_from_block fo filters th = Some bad /\
+    forall q, In q bad <-> exists g, In (q, g) filters /\ omits_required blk (mt g).
+Proof. exact resolve_names_refutable. Qed.
+Print Assumptions C03_refutable_filters_named.
+
+(* The conflict-resolution theorems with the class stated in the vocabulary
+   of BIP-158 (no verdict oracle): the true filter omits no indexed output
+   script and matches no OP_RETURN output, every other filter served omits an
+   indexed output script of the block. *)
+Theorem C03_detect_never_names_honest_bip158 : forall fo blk mt tf hs idx filters hok bok p mp bad,
+  verify_is fo blk mt ->
+  ~ omits_required blk (mt tf) -> opret_matches blk (mt tf) = 0 ->
+  (forall q g, In (q, g) filters -> g = tf \/ omits_required blk (mt g)) ->
+  NoDup (List.map fst filters) ->
+  (forall m, In (p, m) hs -> m = mp) ->
+  zget (m_hashes mp) idx = Some (fo_hash fo tf) -> lookup p filters = Some tf ->
+  detect_bad hs idx filters hok bok fo = Some bad -> ~ In p bad.
+Proof. exact detect_bad_honest_bip158. Qed.
+Print Assumptions C03_detect_never_names_honest_bip158.
+
+Theorem C03_honest_wins_at_tip_bip158 : forall v env raws p tm tfilt ftip fh blk mt,
+  v_ftip v = Some (ftip, fh) ->
+  honest_in tm p (fst (get_headers v (u32 (fh + 1)) raws)) ->
+  m_prev tm = ftip ->
+  (forall i : nat, (i < zn (snd (get_headers v (u32 (fh + 1)) raws)))%nat ->
+                   good_idx_bip158 env blk mt tfilt tm (u32 (fh + 1)) p (Z.of_nat i)) ->
+  ~ In p (fst (get_uncheckpointed v env raws)) /\
+  (forall m, snd (get_uncheckpointed v env raws) = UWrite m -> m = tm) /\
+  (forall m, snd (get_uncheckpointed v env raws) = UWrite m ->
+     forall q mq, In (q, mq) (fst (get_headers v (u32 (fh + 1)) raws)) -> mq <> tm ->
+                  In q (fst (get_uncheckpointed v env raws))).
+Proof. exact uncheckpointed_honest_wins_bip158. Qed.
+Print Assumptions C03_honest_wins_at_tip_bip158.
+
+Theorem C03_honest_wins_checkpoints_bip158 : forall H hard v env raws hint cps p tc tfilt blk mt,
+  In (p, tc) cps -> (forall l, In (p, l) cps -> l = tc) ->
+  peer_hard_bad hard tc = false ->
+  (forall q l, In (q, l) cps -> (length l <= length tc)%nat) ->
+  (forall startH, exists tm,
+      honest_in tm p (fst (get_headers v startH raws)) /\
+      (forall i : nat, (i < zn (snd (get_headers v startH raws)))%nat ->
+                       good_idx_bip158 env blk mt tfilt tm startH p (Z.of_nat i)) /\
+      (forall d, startH = u32 (d * INTERVAL) -> cp_contradicts H d tc tm = false)) ->
+  let '(bans, res) := resolve_conflict H hard v env raws hint cps in
+  ~ In p bans /\
+  (forall l, res = Some l -> forall (i : nat) x y, l !! i = Some x -> tc !! i = Some y -> x = y) /\
+  (forall l, res = Some l -> forall q lq (i : nat) x y,
+      In (q, lq) cps -> lq !! i = Some x -> tc !! i = Some y -> x <> y -> In q bans).
+Proof. exact resolve_honest_wins_bip158. Qed.
+Print Assumptions C03_honest_wins_checkpoints_bip158.
